@@ -220,6 +220,11 @@ func lookups(c Case, t *tree.Tree, keep func(string) bool, wt []string) error {
 		if len(t.Tips()) != len(wt) {
 			return fmt.Errorf("%d tips, expected %d", len(t.Tips()), len(wt))
 		}
+		// RemoveTips refreshes the indexes of an indexed tree itself: tip ranks, bitsets, tip
+		// counts and depths must describe the pruned tree without a further ReinitIndexes
+		if err := gt.IndexesExact(t); err != nil {
+			return fmt.Errorf("indexes right after pruning an indexed tree: %v", err)
+		}
 		if err := t.ReinitIndexes(); err != nil {
 			return fmt.Errorf("ReinitIndexes after pruning: %v", err)
 		}
